@@ -10,8 +10,8 @@ CLAIMED = {
         text='Language equality between the automaton rustc really compiles for each of the 20 validated types (transition table read '
              'from the HIR of the generated validate()) and the RFC 3986/3987 production, over ALL byte / Unicode strings; plus the MIR '
              'shape of all 40 checked constructors (branch on validate(input); Ok carries the input, Err the untouched parameter) and the '
-             'classification, with discharged language obligations, of every unchecked construction site. Exact, no bounds.',
-        design_ref='DESIGN.md §4 C01, §3 Engine A, Engine C (C-sites)',
+             'classification, with discharged language obligations, of every unchecked construction site; and constructor exactness: for each of the 124 functions from raw text (str, [u8], String, Vec<u8>) to a validated type — new, TryFrom, FromStr, from_vec, whatever they are routed through — the regular language of texts it accepts, computed from its MIR terms, equals the language of THAT type. Exact, no bounds.',
+        design_ref='DESIGN.md §4 C01, §3 Engine A, Engine C (C-sites), §10.16',
         note='Trusted: rustc expansion/HIR/MIR; my transcription of the two RFC grammars (spec/); the ABNF→DFA compiler; std contracts of '
              'from_utf8/chars/iter. Not run-time: nothing of iref is executed. The thorough tier runs the same exhaustive analysis and, before it, the detection self-test: every seeded change kept under seeded/ for that property is applied to a scratch copy of the current tree (never to /repo) and must be reported (iv/selftest.py; result recorded in the evidence notes).',
         technique='automata equivalence on compiler-extracted DFAs + MIR dataflow rules (static analysis)',
@@ -83,7 +83,7 @@ CLAIMED = {
         text='Structural decision for every comparable type: eq, cmp and hash use the same key projection (views to other library types resolved), applied symmetrically; '
              'partial_cmp is Some(cmp); the 57 owned forwarders call the borrowed impl; *Parts derive all five traits; and for each of the 29 Borrow impls between library types '
              'the hash SHAPE (sequence of values fed to the hasher, Option adding a discriminant, recursively) of A equals that of the borrowed B — inequality is a definite '
-             'contract breach for any real hasher.',
+             'contract breach for any real hasher. The two families compare alike: the 164 URI/IRI twin pairs of eq / cmp / partial_cmp / hash have the same callees, constants and branches and apply each call to the same arguments (a self/other swap in one family would make a BTreeMap keyed by UriBuf unsearchable through Borrow<Iri>).',
         design_ref='DESIGN.md §4 C08, Engine C (C-key)',
         note='Coherence is structural (same key), not a value-level proof that cmp==Equal ⇔ eq. Genuine defects F4 (Uri/Iri vs reference hash) and F8 (DataUrlBuf derived over derived data) were repaired by fix: commits; '
              'the check reports all 7 pairs on the pre-fix tree.',
@@ -151,8 +151,8 @@ CLAIMED = {
         text='Exact language inclusions on the compiled automata: every URI-family type ⊆ its IRI twin, full ⊆ reference types, URI family ⊆ ASCII '
              '(the obligation behind each unchecked re-wrap, enumerated from MIR); guard equality L(X-ref) ∩ has-scheme = L(X) in both directions '
              '("exactly when"); every conversion function between the eight RI types is classified (unchecked+inclusion / guarded / checked downcast '
-             'on the text of self with the original handed back / forwarder); URI and IRI twins have equal MIR summaries (595 pairs).',
-        design_ref='DESIGN.md §4 C13, Engine A, C-sites, C-sibling',
+             'on the text of self with the original handed back / forwarder); conversion EXACTNESS: for each of the 61 functions of one RI-typed argument yielding another RI type (inherent, TryFrom, From, AsRef, Borrow — whatever the Self of the impl) the regular language of texts on which it yields a value, computed from its MIR terms and site guards, equals L(source) ∩ L(target) and the yielded type is the declared one; URI and IRI twins have equal MIR summaries (595 pairs), including which argument each call is applied to.',
+        design_ref='DESIGN.md §4 C13, Engine A, C-sites, C-sibling, §10.16',
         note='Decides acceptance, text preservation and family agreement of the conversions. "Identical comparison/hashing/resolution/editing '
              'results in both families" is decided structurally (same generic common::* code, equal summaries of the duplicated code), not by evaluating results. '
              'has-scheme predicate is a spec model of parse::find_scheme (spec/predicates.abnf).',
@@ -218,9 +218,9 @@ CLAIMED = {
              '(media_type, is_base_64_encoded, encoded_data) return exactly the specification spans on every text of the shape — hence borrowed and owned views agree and reassemble the text; '
              'every scanner terminates (no cycle of abstract states that reads no input) and never slices out of bounds. The two constructors are executed the same way (Uri/UriBuf::new summarised as the '
              'C01 validator, once under the hypothesis “valid URI” with the specification restricted to L(URI), once under “not a URI”): Ok exactly for a valid URI of the documented shape, the value is the validated '
-             'text (owned: with the specification delimiters stored), otherwise the input is handed back. Structural rules: the owned form is immutable, no public field, unchecked constructors are unsafe, owned accessors read the stored delimiters.',
-        design_ref='DESIGN.md §4 C18, §10.6 (Engine S)',
-        note='Trusted: summaries of str::strip_prefix / char_indices / chars / Iterator::next / slicing / == (iv/strscan.py) for ascii text; ascii-ness of a valid URI (C01). NOT decided: base64 decoding of decoded_data (the base64 crate). '
+             'text (owned: with the specification delimiters stored), otherwise the input is handed back. Structural rules: the owned form is immutable, no public field, unchecked constructors are unsafe, owned accessors read the stored delimiters. decoded_data of both forms (path-sensitive rule): when flagged base64, exactly one Engine::decode with the STANDARD alphabet constant applied to encoded_data() of self; otherwise no decoding and Ok(Cow::Borrowed(the bytes of encoded_data())).',
+        design_ref='DESIGN.md §4 C18, §10.6 (Engine S), §10.16',
+        note='Trusted: summaries of str::strip_prefix / char_indices / chars / Iterator::next / slicing / == (iv/strscan.py) for ascii text; ascii-ness of a valid URI (C01). Trusted: the base64 decoder itself (base64 crate). '
              'The media-type alphabet of the specification is RFC 6838 restricted-name-chars plus "/" (no parameters), which is what the property calls media-type.',
         technique='abstract interpretation of scanner MIR in product with a specification automaton (explicit-state, exhaustive) + MIR shape rules (static analysis)',
         engine='S+C',
